@@ -144,7 +144,6 @@ def judgeB (g : SG) (k : Nat) : Op → Out → Bool
     if g.hasEdge a b then
       match o with
       | .nat i => decide (i < (specEdgeKeys g k).length)
-      | .panic => !g.directed && a != b   -- the other orientation of an undirected edge (see `OutOk`)
       | _ => false
     else o == .panic
   | .edgeFromIndex i, o =>
